@@ -186,6 +186,6 @@ km("animator_expression_default_and_no_default", ["C16"], "default(state, expr) 
 km("animator_default_keyframe_and_multi_state_arm", ["C16"], "`default` as a keyframe body stands for the initial values; `A | B =>` installs the same timeline for each state", tier="thorough")
 km("animator_merged_arm", ["C16"], "a bracketed arm installs a merged timeline", tier="thorough")
 km("animator_three_state_arm_out_of_order", ["C16"], "`A | B | C =>` with the states in another order than the enum's; `default` as the body of an N% keyframe; partially listed default values", tier="thorough")
-km("animator_state_in_two_arms_later_arm_wins", ["C16"], "arms are `.on` calls in the order written: a state named again in a later arm gets the later arm's timeline")
-km("animator_multi_state_merged_arm", ["C16"], "a bracketed list under `A | B` installs the merged timeline for each listed state; `default` inside a list member")
+km("animator_state_in_two_arms_later_arm_wins", ["C16"], "arms are `.on` calls in the order written: a state named again in a later arm gets the later arm's timeline", tier="thorough")
+km("animator_multi_state_merged_arm", ["C16"], "a bracketed list under `A | B` installs the merged timeline for each listed state; `default` inside a list member", tier="thorough")
 km("canary_must_fail", ["C15", "C16"], None, kind="canary")
